@@ -36,6 +36,14 @@ type c03prog struct {
 	SubRej bool     // a sub-channel proposal that the peer rejects, then one more payment
 	// SubFinalPays: the only update inside the sub-channel is final AND moves funds (no separate payment)
 	SubFinalPays bool
+	// SubParentPay: between the sub-channel's final update and its settlement, one more accepted
+	// payment in the parent (the parent state the settlement is built on has moved on)
+	SubParentPay bool
+	// TwoSubs: two sibling sub-channels with one payment each stay OPEN; the (non-final) ledger
+	// channel is settled through registration and timeout with both of them
+	TwoSubs bool
+	// Refuse: the ledger refuses a Withdraw inside a running challenge period instead of waiting
+	Refuse bool
 }
 
 func (p c03prog) name() string {
@@ -66,6 +74,15 @@ func (p c03prog) name() string {
 	if p.SubFinalPays {
 		n += "/finalpays"
 	}
+	if p.SubParentPay {
+		n += "/parentpay"
+	}
+	if p.TwoSubs {
+		n += "/twosubs"
+	}
+	if p.Refuse {
+		n += "/refuse"
+	}
 	return n
 }
 
@@ -85,6 +102,10 @@ func (p c03prog) expect() [2]int64 {
 	if p.Sub { // sub-channel (min(2,a), min(2,b)); inside, A pays 1 to B if it can
 		sa := min(2, b[0])
 		if sa >= 1 {
+			b[0]--
+			b[1]++
+		}
+		if p.SubParentPay && b[0]-max(sa-1, 0) >= 1 { // A's balance in the parent while the sub-channel's funds are locked
 			b[0]--
 			b[1]++
 		}
@@ -108,6 +129,9 @@ type c03obs struct {
 	lastVer  uint64
 	hErrs    []string
 	unsigned int
+	subIDs   []channel.ID // TwoSubs: the open sub-channels
+	subLast  [2]int64     // TwoSubs: sum over the sub-channels of each party's balance in the last state both signed
+	early    []string     // refused early withdrawals by the party whose own registration started the period
 }
 
 func decodeState(enc string) *channel.State {
@@ -159,7 +183,14 @@ func c03exec(t *testing.T, ssc schedrun.Scenario, o vsched.Options) (*vsched.Sch
 			// the sub-channel's funding and withdrawal updates are auto-accepted by the client; the
 			// payment and the final update inside the sub-channel reach the user handler of B
 			decB += "aa"
+			if pr.SubParentPay {
+				decB += "a"
+			}
 		}
+		if pr.TwoSubs {
+			decB += "aa" // one payment inside each sub-channel
+		}
+		l.RefuseEarly = pr.Refuse
 		if pr.Final {
 			decB += "a"
 		}
@@ -250,12 +281,42 @@ func c03exec(t *testing.T, ssc schedrun.Scenario, o vsched.Options) (*vsched.Sch
 					obs.errs = append(obs.errs, "sub final: "+classify(err))
 				}
 			}
+			if pr.SubParentPay && ca.State().Balances[0][0].Int64() >= 1 {
+				uctx, ucancel := context.WithTimeout(context.Background(), 20*time.Second)
+				err := ca.Update(uctx, pay(0, 1, false))
+				ucancel()
+				if err != nil {
+					obs.errs = append(obs.errs, "parent payment before the sub-channel's settlement: "+classify(err))
+				}
+			}
 			done := make(chan string, 2)
 			vsched.GoNamed("settle-sub-A", func() { vsched.Send(done, fmt.Sprintf("A:%v", sub0.Settle(ctx, false))) })
 			vsched.GoNamed("settle-sub-B", func() { vsched.Send(done, fmt.Sprintf("B:%v", sub1.Settle(ctx, true))) })
 			for i := 0; i < 2; i++ {
 				if r := vsched.Recv(done); !strings.HasSuffix(r, ":<nil>") {
 					obs.errs = append(obs.errs, "settle sub "+r)
+				}
+			}
+		}
+		if pr.TwoSubs {
+			for k := 0; k < 2; k++ {
+				alloc := channel.NewAllocation(2, []wallet.BackendID{0}, w.Asset)
+				alloc.SetAssetBalances(w.Asset, []channel.Bal{big.NewInt(2), big.NewInt(1)})
+				prop, err := client.NewSubChannelProposal(ca.ID(), 60, alloc, w.P[0].nextNonce())
+				if err != nil {
+					obs.errs = append(obs.errs, "sub proposal: "+err.Error())
+					return
+				}
+				nb := len(w.P[1].Chans)
+				sub0, err := w.P[0].C.ProposeChannel(ctx, prop)
+				if err != nil {
+					obs.errs = append(obs.errs, "open sub: "+err.Error())
+					return
+				}
+				vsched.WaitCond("await-sub", func() bool { return len(w.P[1].Chans) > nb })
+				obs.subIDs = append(obs.subIDs, sub0.ID())
+				if err := sub0.Update(ctx, pay(0, int64(k+1), false)); err != nil {
+					obs.errs = append(obs.errs, "sub payment: "+classify(err))
 				}
 			}
 		}
@@ -304,6 +365,25 @@ func c03exec(t *testing.T, ssc schedrun.Scenario, o vsched.Options) (*vsched.Sch
 			obs.heldSub = l.Held(subID)
 		}
 		obs.ledger, obs.viol = l.Log, l.Viol
+		for _, id := range obs.subIDs {
+			obs.heldSub += l.Held(id)
+			if st, ok := lastCommon(w.Enabled, id); ok {
+				obs.subLast[0] += st.Balances[0][0].Int64()
+				obs.subLast[1] += st.Balances[0][1].Int64()
+			} else {
+				obs.errs = append(obs.errs, "no common state of a sub-channel")
+			}
+		}
+		for _, e := range l.Early {
+			for _, r := range l.RegLog {
+				if r.Ch == e.Ch { // the first registration of the channel started the challenge period
+					if r.By == fmt.Sprintf("idx%d", e.By) {
+						obs.early = append(obs.early, fmt.Sprintf("party %d", e.By))
+					}
+					break
+				}
+			}
+		}
 		if st, ok := lastCommon(w.Enabled, ca.ID()); ok {
 			obs.lastOK, obs.lastVer = true, st.Version
 			obs.last = [2]int64{st.Balances[0][0].Int64(), st.Balances[0][1].Int64()}
@@ -330,6 +410,15 @@ func c03check(ssc schedrun.Scenario, s *vsched.Sched, o any) []schedrun.Verdict 
 	if pr.SubRej {
 		site += "/subrej"
 	}
+	if pr.SubParentPay {
+		site += "/parentpay"
+	}
+	if pr.TwoSubs {
+		site += "/twosubs"
+	}
+	if pr.Refuse {
+		site += "/refuse"
+	}
 	var out []schedrun.Verdict
 	seen := map[string]bool{}
 	add := func(clause, format string, a ...any) {
@@ -354,6 +443,12 @@ func c03check(ssc schedrun.Scenario, s *vsched.Sched, o any) []schedrun.Verdict 
 	if len(obs.errs) > 0 {
 		add("protocol-step-failed", "an honest protocol step failed: %v", obs.errs)
 		return out
+	}
+	if len(obs.early) > 0 {
+		// Settle of a channel that is not yet registered registers it and waits for the challenge
+		// period it started; only a Settle that finds the channel registered already may meet a
+		// running period (and is then repeated, see the driver)
+		add("withdraw-inside-own-challenge-period", "Withdraw was called (and refused by the ledger) while the challenge period started by the caller's own registration was still running: %v", obs.early)
 	}
 	for i, r := range obs.settle {
 		if r != "ok" {
@@ -380,6 +475,10 @@ func c03check(ssc schedrun.Scenario, s *vsched.Sched, o any) []schedrun.Verdict 
 		return out
 	}
 	want := pr.expect()
+	if pr.TwoSubs { // 2+1 locked for each of the two sub-channels
+		want[0] -= 4
+		want[1] -= 2
+	}
 	if obs.last != want {
 		add("last-agreed-state", "last state both signed (v%d) has balances %v, the accepted updates give %v", obs.lastVer, obs.last, want)
 	}
@@ -388,8 +487,8 @@ func c03check(ssc schedrun.Scenario, s *vsched.Sched, o any) []schedrun.Verdict 
 		if pr.Agree != [2]int64{} {
 			agreed = pr.Agree[i]
 		}
-		if exp := 100 - agreed + obs.last[i]; obs.acct[i] != exp {
-			add("payout", "party %d ends with %d on the ledger, expected %d (= 100 - %d funded + %d in the last agreed state v%d)", i, obs.acct[i], exp, agreed, obs.last[i], obs.lastVer)
+		if exp := 100 - agreed + obs.last[i] + obs.subLast[i]; obs.acct[i] != exp {
+			add("payout", "party %d ends with %d on the ledger, expected %d (= 100 - %d funded + %d in the last agreed state v%d + %d in its open sub-channels)", i, obs.acct[i], exp, agreed, obs.last[i], obs.lastVer, obs.subLast[i])
 		}
 	}
 	if obs.held != 0 || obs.heldSub != 0 {
@@ -470,6 +569,19 @@ func c03programs(thorough bool) (all []c03prog, small []c03prog) {
 	for _, final := range []bool{true, false} {
 		all = append(all, c03prog{Bal: [2]int64{5, 5}, Final: final, Settle: "par", Sub: true, SubFinalPays: true})
 	}
+	// a parent payment between the sub-channel's final update and its settlement; two open sibling
+	// sub-channels in a dispute; a ledger that refuses early withdrawals
+	for _, st := range []string{"AB", "par"} {
+		all = append(all, c03prog{Bal: [2]int64{5, 5}, Final: true, Settle: st, Sub: true, SubParentPay: true})
+		all = append(all, c03prog{Bal: [2]int64{5, 5}, Final: false, Settle: st, TwoSubs: true})
+		all = append(all, c03prog{Bal: [2]int64{5, 5}, Pays: []payStep{{0, 1, true}}, Final: false, Settle: st, TwoSubs: true, Refuse: true})
+	}
+	for _, st := range []string{"AB", "BA", "par"} {
+		for _, seq := range [][]payStep{nil, {{0, 1, true}}} {
+			all = append(all, c03prog{Bal: [2]int64{5, 5}, Pays: seq, Final: false, Settle: st, Refuse: true})
+		}
+	}
+	all = append(all, c03prog{Bal: [2]int64{5, 5}, Final: false, Settle: "par", Sub: true, Refuse: true})
 	// sub-channel variants
 	for _, bal := range [][2]int64{{5, 5}, {10, 0}} {
 		for _, seq := range [][]payStep{nil, {{0, 1, true}}} {
